@@ -247,6 +247,27 @@ def replay_arith(case, cex):
     return last_sep, text + 'items: %r' % items[-3:]
 
 
+def stamp_texts(ctx, case):
+    """the TEXT of the time stamp as libwayland prints it (padding, both decimal marks, small and large values) through the real decoder:
+    shown time = (this - first) within 1e-9 s"""
+    import logging
+    logging.disable(logging.CRITICAL)
+    from backends.libwayland_debug_output import parse
+    from core import wl
+    us = [0, 1, 999, 1000, 12345, 99999, 100000, 100001, 999999, 1000000, 1000001, 123456789, 4294967295]
+    first = ctx.choose(us, 'first')
+    this = ctx.choose([u for u in us if u >= first], 'this')
+    mark = ctx.choose(['.', ','], 'mark')
+    style = ctx.choose(['%d.%03d', '%7d.%03d', '%6d.%03d'], 'padding')
+    def line(u):
+        return ('[' + style % (u // 1000, u % 1000) + '] wl_display@1.sync()').replace('.', mark, 1)
+    wl.Message.base_time = None
+    _, m0 = parse.message(line(first))
+    _, m1 = parse.message(line(this))
+    ctx.check('first message is shown at 0', m0.timestamp == 0)
+    ctx.check('shown time of `%s` after `%s` is (this - first) seconds' % (line(this)[:16], line(first)[:16]), abs(m1.timestamp - (this - first) / 1e6) <= 1e-9)
+
+
 def last_shown(ctx, case):
     """separators appear exactly between consecutively SHOWN messages more than a second apart"""
     gaps, listing_at = case
@@ -335,6 +356,8 @@ def obligations(tier):
            'A, B, P, C integer microsecond counts below 2^32 us (the range of libwayland\'s counter)', arithmetic, cases=['base', 'shift', 'zero-base'], replay=replay_arith,
            stubs=['float() re-bound in a copy of parse.message to the symbolic conversion', 'WlPatterns replaced by a fake whose timestamp group denotes A/1000 exactly'],
            outside='gaps of exactly 1.000000 s +- 1 us; str.format'),
+        Ob('stamp-texts', 'symx', 'time stamp texts as libwayland prints them (space padding, `.` or `,`, values from 0.000 to the top of the counter) through the real decoder', FUNCS[:2],
+           '13 boundary values x 13 x 2 decimal marks x 3 paddings (exhaustive pool)', stamp_texts, cases=[None]),
         Ob('shown-gap-state-machine', 'symx', 'the gap is between consecutively shown messages: live view with symbolic filter verdicts, optional listing in between', FUNCS[2:],
            '<= %d live messages, gaps from %r, optional listing at any position, verdicts symbolic' % (n, pool), last_shown, cases=cases, stubs=['abstract leaves', 'Message.show stubbed']),
         Ob('shown-gap-state-machine-reachable', 'symx', 'reachability twin', FUNCS[2:], '', twin, cases=[((0.75, 1.5), 1)], expect_cex=True),
